@@ -172,6 +172,18 @@ package ring
 //@   ensures  nochange: r1 == nil && mergeable != nil && other != nil && r0 == nil ==> (forall n string :: !upd[n]) && same(d.Ingesters, d0)
 //@   # the reported change holds exactly the updated entries with their new content
 //@   ensures  change: r1 == nil && r0 != nil ==> istype(r0, "*Desc") && (forall n string :: upd[n] ==> in(n, astype(r0, "*Desc").Ingesters) && astype(r0, "*Desc").Ingesters[n] == d.Ingesters[n])
+//@   # collisions are looked for whenever an accepted entry arrives with a token list different from the one held (shorter,
+//@   # longer or just different: any new token may be somebody else's), and are resolved whenever the look-up finds one
+//@   ghost var chk bool = false
+//@   ghost var hadc bool = false
+//@   ghost var res bool = false
+//@   at after@ring.conflictingTokensExist: chk := true
+//@   at after@ring.conflictingTokensExist: hadc := $r0
+//@   at after@ring.resolveConflicts: res := true
+//@   loop 0 invariant tokens_flag: forall n string :: $visited[n] && otherIngesterMap[n].Timestamp > get(d0, n).Timestamp && get(d0, n).Tokens != otherIngesterMap[n].Tokens ==> tokensChanged
+//@   loop 1 invariant tokens_flag: forall n string :: in(n, other.Ingesters) && other.Ingesters[n].Timestamp > get(d0, n).Timestamp && get(d0, n).Tokens != other.Ingesters[n].Tokens ==> tokensChanged
+//@   at exit: assert conflicts_checked: r1 == nil && r0 != nil && mergeable != nil && other != nil ==> (forall n string :: in(n, other.Ingesters) && other.Ingesters[n].Timestamp > get(d0, n).Timestamp && get(d0, n).Tokens != other.Ingesters[n].Tokens ==> chk)
+//@   at exit: assert conflicts_resolved: hadc ==> res
 //@   loop 0 invariant !isnil(thisIngesterMap) && same(otherIngesterMap, other.Ingesters) && nu == len(updated)
 //@   loop 0 invariant forall n string :: !$visited[n] ==> (in(n, thisIngesterMap) <==> in(n, d0)) && (in(n, d0) ==> thisIngesterMap[n] == d0[n]) && !upd[n]
 //@   loop 0 invariant forall n string :: $visited[n] ==> (takesOther(get(d0, n), otherIngesterMap[n])
